@@ -207,6 +207,8 @@ def do_op(op: tuple, out: list) -> None:
             out.append(("ok", repr(ns["shared"](op[1], op[1]))))  # too many positional arguments: the documented TypeError
         elif kind == "call_f":
             out.append(("ok", repr(FRESH["shared_f"](op[1]))))
+        elif kind == "call_n":
+            out.append(("ok", repr(FRESH["shared_n"](op[1]))))
         elif kind == "call_p":
             out.append(("ok", repr(ns["shared_p"](op[1]))))
         elif kind == "call_s":
@@ -289,6 +291,11 @@ def shared_f(x):
     # (priorities: the compound-priority table of the object is compared with a freshly built one after the scenario)
     return inc_p(use_p(prep(), x))
 
+@dag
+def shared_n(x):
+    # no setup node at all: two threads may make the very first calls of this object at the same moment
+    return inc_p(use_p(7, x))
+
 @xn(setup=True, resource=M)
 def slow_prep():
     T.pause()  # a setup node that takes its time: other threads run meanwhile
@@ -318,6 +325,8 @@ def shared_2s(x):
 '''
 FRESH: Dict[str, Any] = {}  # DAG objects rebuilt before every execution of a scenario (their setup node has never run)
 SCENARIOS["first_call||first_call"] = [[("call_f", 1)], [("call_f", 2)]]  # both calls find the setup node still to be executed
+# the first two calls of a freshly built DAG object that has NO setup node, made by two threads together (inside C16's quantifier)
+SCENARIOS["fresh_call||fresh_call"] = [[("call_n", 1)], [("call_n", 2)]]
 RENDEZVOUS = {"call_s||call_s+rendezvous": 2}
 PRE_SETUP = {"call_s||call_s+rendezvous", "call_s||call_s"}
 BARE_BEHAVIOURS = ["ignore", "warning", "error"]
@@ -325,7 +334,7 @@ BARE_BEHAVIOURS = ["ignore", "warning", "error"]
 
 # quick tier: scenarios explored at LINE level (one preemption at every source line of tawazi); the others are explored at their
 # synchronisation points in quick and at line level in thorough
-QUICK_LINE = ("build||call", "build_pause||call", "build_nest||call", "build||build2", "build_pause||bare", "first_call||first_call",
+QUICK_LINE = ("build||call", "build_pause||call", "build_nest||call", "build||build2", "build_pause||bare", "first_call||first_call", "fresh_call||fresh_call",
               "setup(pa)||setup(pb)", "call||setup(pb)", "slow_setup||debug_call", "build_method||bare_method", "call_s||call_s")
 
 
@@ -351,10 +360,11 @@ def run_scenario(ops: List[List[tuple]], prefix, line_mode: bool, rv: int = 0, p
     outs: List[list] = [[] for _ in ops]
     if pre_setup:
         lib()["shared_s"].setup()
-    if any(op[0] in ("call_f", "setup_sp", "setup_t", "call_2s") for th in ops for op in th):
+    if any(op[0] in ("call_f", "call_n", "setup_sp", "setup_t", "call_2s") for th in ops for op in th):
         loc = dict(lib())
         exec(compile(FRESH_SRC, "<c16-fresh>", "exec"), loc)  # noqa: S102
         FRESH["shared_f"] = loc["shared_f"]
+        FRESH["shared_n"] = loc["shared_n"]
         FRESH["shared_sp"] = loc["shared_sp"]
         FRESH["shared_2s"] = loc["shared_2s"]
         FRESH["RUNS"] = loc["RUNS"]
@@ -377,7 +387,7 @@ def run_scenario(ops: List[List[tuple]], prefix, line_mode: bool, rv: int = 0, p
     final = [[finalize(o) for o in out] for out in outs]
     s.final = final
     s.tables_differ = []
-    used = {"call_f": "shared_f", "setup_sp": "shared_sp", "setup_t": "shared_2s", "call_2s": "shared_2s"}
+    used = {"call_f": "shared_f", "call_n": "shared_n", "setup_sp": "shared_sp", "setup_t": "shared_2s", "call_2s": "shared_2s"}
     names = sorted({used[op[0]] for th in ops for op in th if op[0] in used})
     if names:
         # the tables of a DAG object after concurrent use equal those of the same DAG built just now by one thread
